@@ -47,6 +47,10 @@ SUBS = collections.OrderedDict([
     ('B.Mb', ('B', 'Mb', 'all', 20, False)),
     ('B.Ma', ('B', 'Ma', 'all', 20, False)),
     ('B.Mc', ('B', 'Mc', 'all', 20, True)),     # handler is a bound method of a helper object
+    # the SAME (listener, class, handler) subscribed again with another filter / priority: the newest settings
+    # replace the earlier ones
+    ('A.Mb/2', ('A', 'Mb', 'all', 5, False)),
+    ('B.Ma/2', ('B', 'Ma', 'even', 40, False)),
 ])
 UNSUBS = [('A', 'Ma'), ('B', 'Mb')]
 PRESUB = ('A.Mb', 'A.Ma', 'B.Mb', 'B.Ma')      # start state of the '-presub' scenarios
